@@ -1203,7 +1203,7 @@ class Interp:
         if isinstance(o, ADict):
             k = self.key_of(self.expr(sl, env), sl)
             if k not in o.items:
-                raise Unknown(f"missing dictionary key {k!r} at line {getattr(sl, 'lineno', 0)}")
+                raise PyError('KeyError', getattr(sl, 'lineno', 0))       # the keys of a modelled dictionary are concrete: a missing one is Python's KeyError
             return o.items[k]
         if isinstance(o, AStr):
             # character-level access is only supported on literals (e.g. parts[0][1:])
